@@ -104,6 +104,9 @@ def check(run, M, tier):
         if isinstance(fn, ast.Attribute) and fn.attr == "__init__" and isinstance(fn.value, ast.Call) and isinstance(fn.value.func, ast.Name) and fn.value.func.id == "super":
             args = [vn._as_term(vn.ev(a, st)) for a in call.args]
             kw = {k.arg: vn._as_term(vn.ev(k.value, st)) for k in call.keywords if k.arg}
+            for pn in ("A", "y")[len(args):]:   # LinearLeastSquares.__init__(A, y, ...) given by keyword
+                if pn in kw:
+                    args.append(kw.pop(pn))
             st.env["__super_args__"] = tuple(args)
             st.env["__super_kw__"] = T.app("dict", *[T.app("kw:" + k, v) for k, v in sorted(kw.items())])
             for k, v in kw.items():
